@@ -222,6 +222,8 @@ class Sim:
                 w.touch(op[1])
             elif k == 'tick':
                 w.advance(int(op[1]))
+            elif k == 'hold':
+                w.hold(int(op[1]))
             else:
                 raise HarnessError('unknown edit op {}'.format(op))
         except (NotADirectoryError, IsADirectoryError, FileExistsError):
